@@ -97,7 +97,6 @@ POSITIONS = {
 }
 
 # positions at which the unchanged tree is known to mis-normalise (see known_findings.json)
-COLUMN_SOURCE_POS = {"column", "column_qualified", "column_in_function", "two_stmt_column", "two_stmt_column_list"}
 SCHEMA_POS = {"schema_from", "schema_target", "schema_qualifier", "three_part_db"}
 
 
@@ -123,20 +122,6 @@ class PositionOb(TemplateObligation):
                 if self.pos in SCHEMA_POS and self.compare(lifted, self.expect(spec.lower())):
                     finding = "C16-quoted-schema-folded"
         return self.verdict(names, lifted, exp, ok=ok, finding=finding)
-
-    def expect_wrong_column(self, n):
-        """how the recorded finding is wrong: the SOURCE side of the column is case-folded, the target side is not"""
-        e = self.expect(n)
-        low = n.lower()
-        if self.pos in ("column", "column_qualified"):
-            e.pairs = [(C(T("tsrc"), low), C(T("ttgt"), n))]
-        elif self.pos == "column_in_function":
-            e.pairs = [(C(T("tsrc"), low), C(T("ttgt"), "m"))]
-        elif self.pos == "two_stmt_column":
-            e.pairs = [(C(T("tsrc"), low), C(T("tmid"), n)), (C(T("tmid"), low), C(T("ttgt"), n))]
-        elif self.pos == "two_stmt_column_list":
-            e.pairs = [(C(T("tsrc"), "ca"), C(T("tmid"), n)), (C(T("tmid"), low), C(T("ttgt"), n))]
-        return e
 
 
 # ---------------------------------------------------------------------------------------------
